@@ -72,6 +72,8 @@ def build(repo):
                                   'forall(j, 0, i_, INC(P, j, select(G.xs, j + 1)))',
                                   ('fixed point (inner):: implies(forall(j, 0, p, INC(P, j, x0)), x == x0 and forall(j, 0, p, y[j] == zerov) and rval(cI) == 0)', 'C15')]},
                ensures=[('at most max_iter sweeps:: n <= max_iter or n == 0', 'C15'),
+                        ('the routine returns before max_iter sweeps only by its documented rule with the CALLER\'s tolerance (the stop quantity of the last sweep is below tol as passed in):: '
+                         'n >= max_iter or (not isinf(cI) and rval(cI) < tol)', 'C15', 'C09'),
                         ('stopped by the rule => hypothesis of lemma L1: the squared moves of the last sweep sum to less than tol, and each sub-iterate lies in its set:: '
                          'implies(n >= 1 and not isinf(cI) and rval(cI) < tol, result == select(G.xs, p) and SUMSQ(G.xs, p) < tol and '
                          'forall(j, 0, p, INC(P, j, select(G.xs, j + 1))))', 'C15', 'C09'),
